@@ -346,4 +346,69 @@ def notReadBefore (ms : List MethodRW) (attr stop : String) : List (String × St
 def callOrder (steps : List (String × String × List String)) : List String :=
   (steps.filter (·.1 == "call")).map (·.2.1)
 
+/-! ### `getattr(obj, name)`: normal lookup first, `__getattr__` only when it fails
+
+`object.__getattribute__` on an instance of a class WITHOUT base classes finds, in this order: a data descriptor of the class
+(`property`, `LazyProperty`), an entry of the instance `__dict__`, any other class attribute (methods, constants), the names `object`
+and the type machinery provide (`__class__`, `__dict__`, `__doc__`, `__init__`, …); only when all fail is `__getattr__(name)`
+called.  The classes of `calculator.py` have no bases, no `__getattribute__` / `__setattr__` / `__slots__`, and never touch
+`__dict__` / `setattr` (translated: `classBases`, `classNames`, `dynamicAttrUses`, `foreignAttrStores`). -/
+
+/-- the names normal lookup can find on an instance, from the translated class -/
+structure AttrShape where
+  classNames : List String      -- bound in the class body (methods, properties, LazyProperties, constants): found on every instance, always
+  initAttrs : List String       -- `self.<x> = …`, unconditional top-level statements of `__init__`: in the instance dict from construction on
+  laterAttrs : List String      -- `self.<x> = …` anywhere else in the class: in the instance dict from some moment on
+  lazyCaches : List String      -- `_<name>`, set by `LazyProperty.__get__` on the first read of `<name>`
+  deriving DecidableEq, Repr
+
+def assocList (tab : List (String × List String)) (cls : String) : List String :=
+  ((tab.find? fun e => e.1 == cls).map (·.2)).getD []
+
+/-- the shape of class `cls` from the per-class tables of the translator -/
+def shapeOf (names inits laters lazies : List (String × List String)) (cls : String) : AttrShape :=
+  ⟨assocList names cls, assocList inits cls, assocList laters cls, assocList lazies cls⟩
+
+/-- found by normal lookup on every constructed instance, at any time -/
+def AttrShape.always (sh : AttrShape) (name : String) : Bool := sh.classNames.contains name || sh.initAttrs.contains name
+/-- found by normal lookup only after some method ran / some LazyProperty was read -/
+def AttrShape.sometimes (sh : AttrShape) (name : String) : Bool :=
+  !sh.always name && (sh.laterAttrs.contains name || sh.lazyCaches.contains name)
+/-- can normal lookup ever find the name among what the class and its methods define? -/
+def AttrShape.defined (sh : AttrShape) (name : String) : Bool := sh.always name || sh.sometimes name
+
+/-- the spelling of everything the interpreter itself provides on an object (`dir(object())`, `__dict__`, `__module__`, `__weakref__`, …) -/
+def dunderLike (name : String) : Bool := name.toList.take 2 == ['_', '_']
+
+/-- the result of `getattr(obj, name)` -/
+inductive Access (ρ : Type) where
+  | attribute (name : String)               -- normal lookup succeeds: the defined attribute; `__getattr__` is NOT called
+  | fallback (r : ρ)                        -- normal lookup fails: whatever `__getattr__(name)` does
+  | stateDependent (name : String) (r : ρ)  -- the attribute once it has been set on the instance, `__getattr__(name)` before
+  deriving DecidableEq, Repr
+
+/-- `getattr(obj, name)` for an instance of a class of shape `sh`; `builtin` = the names `object` / the type machinery provide;
+`viaGetattr` = the class's `__getattr__` -/
+def getattrOf {ρ : Type} (sh : AttrShape) (builtin : String → Bool) (viaGetattr : String → ρ) (name : String) : Access ρ :=
+  if sh.always name || builtin name then .attribute name
+  else if sh.sometimes name then .stateDependent name (viaGetattr name)
+  else .fallback (viaGetattr name)
+
+/-- `getattr(calculator.volume_base, name)` as the outcome of the dispatch -/
+def getattrVolumeBase (sh : AttrShape) (builtin : String → Bool) (rx : RegexParts) (fn : String) (branches : List GetattrBranch)
+    (hasKey : String → Modulus → Bool) (name : String) : Access Outcome :=
+  getattrOf sh builtin (resolve rx fn branches hasKey) name
+
+/-- `getattr(calculator.volume_base, name)` as the array served -/
+def getattrVolumeBaseValue {β : Type} (sh : AttrShape) (builtin : String → Bool) (rx : RegexParts) (fn : String)
+    (branches : List GetattrBranch) (s : Stores β) (name : String) : Access (Option β) :=
+  getattrOf sh builtin (lookup rx fn branches s) name
+
+/-- `getattr(calculator.pressure_base, name)`: `CijPressureBaseInterface.__getattr__` hands EVERY name that reaches it to
+`getattr(self.calculator.volume_base, name)` and converts the result with `self.v2p` (an exception of the inner `getattr` propagates):
+the outer `.fallback x` reads "`self.v2p(x)`" -/
+def getattrPressureBase (shP shV : AttrShape) (builtin : String → Bool) (rx : RegexParts) (fn : String) (branches : List GetattrBranch)
+    (hasKey : String → Modulus → Bool) (name : String) : Access (Access Outcome) :=
+  getattrOf shP builtin (getattrVolumeBase shV builtin rx fn branches hasKey) name
+
 end Cij.CalcGlue
